@@ -1,5 +1,6 @@
 import OvniModel.Lemmas.CoreBayConn
 import OvniModel.Lemmas.BayTrack
+import OvniModel.Emu.Prv
 
 /-
   C06, last composition step (3/4): the handlers of the reference emulator
@@ -17,9 +18,7 @@ import OvniModel.Lemmas.BayTrack
 namespace Ovni.Emu
 open Ovni.Generated
 
-/-- The channel specs the emulator was created with (`mkEmu`, `records`). -/
-def Emu.specs (e : Emu) : List ModelSpec :=
-  allSpecs.filter (fun s => e.enabled.contains s.char) ++ e.extra
+-- `Emu.specs` (Emu/Prv.lean): the channel specs the emulator was created with (`mkEmu`, `records`).
 
 def Emu.shape (e : Emu) : Shape := ⟨e.threads.length, e.cpus.length, e.specs⟩
 
